@@ -9,6 +9,14 @@ Events: `lock <dt> granted|refused|error`, `islocked <dt> 0|1`, `refetch <dt> <h
 `sector <dt> <busy01> <rec01>`, `body <dt> ok|conflict`, `handle <dt> 0|1`, `fail <dt>`.
 `start` alone prints the summary of the initial state. `final` prints `exit=<reason> iter=<n> retry=<n>`.
 
+Item lock records (Model R-items): the header may carry three more fields `<trk> <cache0> <w0>`: the tracker in its
+iteration order (`<item><g|a|u|r>,…` or `-`; LockID of item i = own i), the other transactions' records present
+before the commit (`<item><g|u|r>,…`, LockID = foreign 100+i) and the window of the first `lock` call
+(`-`, or `p<item><act>` / `d<item>` / `!` (the verifying read fails) joined by `;`). Every loop answer then ends
+with ` items=<i>:<rec>/<trk>,…` — rec: `-` none, `c<act>` under the tracker's current LockID, `s<act>` under another
+LockID of the transaction, `f<act>` foreign; trk: `<act><owner01>` or `x`. More events: `refetch <dt> <hk> <w>`,
+a trailing ` ~` on a loop event → `items=~` (not observable), `env p<item><act>|d<item>` → `items=…`, `refetchfail <dt> <items|->`, `tail ok|early|late` → `items=…`.
+
 `case <n> table` — lock-table cases: `lockall <now> <ttl> <owner> k1,k2,…` → `1|0 <mask>` (mask: per key, held by
 the owner now); `unlock <now> <owner> k1,…` → `<mask>`; `islocked <now> <owner> k1,…` → `1|0 <mask>`.
 `case <n> bound` — `bound <maxTime> <deadline|->` → the model's bound on the start of the last iteration and the
@@ -18,7 +26,7 @@ namespace Sop.Driver.C15
 open Sop.Driver Sop.Retry
 
 inductive S
-  | loop (c : Cfg) (s : St)
+  | loop (c : Cfg) (s : RSt) (items : List Nat)
   | table (t : Table)
   | none
 
@@ -43,12 +51,67 @@ def summary (s : St) (showHeld : Bool) : String :=
 def optNat (s : String) : Option (Option Nat) :=
   if s == "-" then some none else (s.toNat?).map some
 
+
+def actOf : Char → Option Act
+  | 'g' => some .get | 'a' => some .add | 'u' => some .update | 'r' => some .remove | _ => none
+
+def actCh : Act → String
+  | .get => "g" | .add => "a" | .update => "u" | .remove => "r"
+
+/-- `<digits><letter>` -/
+def itemAct (tok : String) : Option (Nat × Act) :=
+  match tok.toList.reverse with
+  | ch :: ds => do let a ← actOf ch; let n ← (String.ofList ds.reverse).toNat?; pure (n, a)
+  | [] => none
+
+def listOf (s : String) (sep : String) : List String := if s == "-" then [] else s.splitOn sep
+
+def trkOf (s : String) : Option (List Trk) :=
+  (listOf s ",").mapM fun tok => (itemAct tok).map fun (i, a) => ⟨i, ⟨true, i⟩, a, false⟩
+
+def cacheOf (s : String) : Option RCache :=
+  ((listOf s ",").mapM itemAct).map fun l =>
+    l.foldl (fun (c : RCache) (ia : Nat × Act) => c.put ia.1 (⟨false, 100 + ia.1⟩, ia.2)) (fun _ => none)
+
+def envOpOf (tok : String) : Option EnvOp :=
+  match tok.toList with
+  | 'p' :: rest => (itemAct (String.ofList rest)).map fun (i, a) => .put i (100 + i) a
+  | 'd' :: rest => (String.ofList rest).toNat?.map .del
+  | _ => none
+
+def windowOf (s : String) : Option Window :=
+  let toks := listOf s ";"
+  ((toks.filter (· != "!")).mapM envOpOf).map fun ops => ⟨ops, toks.contains "!"⟩
+
+def insertNat (k : Nat) : List Nat → List Nat
+  | [] => [k]
+  | x :: xs => if k ≤ x then k :: x :: xs else x :: insertNat k xs
+
+def showItems (i : ISt) (items : List Nat) : String :=
+  if items.isEmpty then "items=-" else
+  "items=" ++ ",".intercalate (items.map fun j =>
+    let t? := i.trk.find? (fun t => t.item == j)
+    let r := match i.cache j with
+      | none => "-"
+      | some (l, a) =>
+        if l.own then (match t? with | some t => if t.lid = l then "c" else "s" | none => "s") ++ actCh a
+        else "f" ++ actCh a
+    let t := match t? with | some t => actCh t.act ++ b01 t.owner | none => "x"
+    s!"{j}:{r}/{t}")
+
 def reset (hdr : List String) : S :=
   match hdr with
   | ["loop", mt, dl, st, hk] =>
     match mt.toNat?, optNat dl, st.toNat?, boolOf hk with
-    | some mt, some dl, some st, some hk => let c := cfgOf mt dl; .loop c (init c st hk)
+    | some mt, some dl, some st, some hk =>
+      let c := cfgOf mt dl; .loop c (initR c st hk [] (fun _ => none) 1000 .none) []
     | _, _, _, _ => .none
+  | ["loop", mt, dl, st, hk, trk, c0, w0] =>
+    match mt.toNat?, optNat dl, st.toNat?, boolOf hk, trkOf trk, cacheOf c0, windowOf w0 with
+    | some mt, some dl, some st, some hk, some trk, some c0, some w0 =>
+      let c := cfgOf mt dl
+      .loop c (initR c st hk trk c0 1000 w0) ((trk.map (·.item)).foldr insertNat [])
+    | _, _, _, _, _, _, _ => .none
   | ["table"] => .table []
   | _ => .none
 
@@ -77,17 +140,37 @@ def mask (t : Table) (now o : Nat) (ks : List String) : String :=
 
 def stepLine (st : S) (ws : List String) : S × String :=
   match st, ws with
-  | .loop c s, ["start"] => (st, summary s true)
-  | .loop c s, ["final"] =>
-    let ex := match s.pc with | .done e => showExit e | _ => "running"
-    (st, s!"exit={ex} iter={s.iter} retry={s.retry}")
-  | .loop c s, _ =>
-    match parseEv ws with
-    | some e =>
-      let s' := step c s e
-      let sh := match e with | .refetch _ _ => false | _ => true
-      (.loop c s', summary s' sh)
+  | .loop _ s its, ["start"] => (st, summary s.l true ++ " " ++ showItems s.i its)
+  | .loop _ s _, ["final"] =>
+    let ex := match s.l.pc with | .done e => showExit e | _ => "running"
+    (st, s!"exit={ex} iter={s.l.iter} retry={s.l.retry}")
+  | .loop c s its, ["env", op] =>
+    match envOpOf op with
+    | some op => let s' := stepR keepAll c s (.env op); (.loop c s' its, showItems s'.i its)
     | none => (st, "bad-op")
+  | .loop c s its, ["refetchfail", dt, rs] =>
+    match dt.toNat?, (listOf rs ",").mapM String.toNat? with
+    | some dt, some rs =>
+      let s' := stepR keepAll c s (.refetchFail dt rs)
+      (.loop c s' its, summary s'.l true ++ " " ++ showItems s'.i its)
+    | _, _ => (st, "bad-op")
+  | .loop c s its, ["tail", r] =>
+    let r? : Option TailR := match r with | "ok" => some .ok | "early" => some .failEarly | "late" => some .failLate | _ => none
+    match r? with
+    | some r => let s' := stepR keepAll c s (.tail r); (.loop c s' its, showItems s'.i its)
+    | none => (st, "bad-op")
+  | .loop c s its, _ =>
+    -- a trailing `~`: the records are not observable on the real run after this decision
+    let (ws, hide) := if ws.getLast? == some "~" then (ws.dropLast, true) else (ws, false)
+    let (ws', w?) := match ws with
+      | ["refetch", dt, hk, w] => (["refetch", dt, hk], windowOf w)
+      | _ => (ws, some Window.none)
+    match parseEv ws', w? with
+    | some e, some w =>
+      let s' := stepR keepAll c s (.ev e w)
+      let sh := match e with | .refetch _ _ => false | _ => true
+      (.loop c s' its, summary s'.l sh ++ " " ++ (if hide then "items=~" else showItems s'.i its))
+    | _, _ => (st, "bad-op")
   | .table t, ["lockall", now, ttl, o, ks] =>
     match now.toNat?, ttl.toNat?, o.toNat? with
     | some now, some ttl, some o =>
